@@ -203,9 +203,9 @@ def check(run, prog, tier):
     # ------------------------------------------------------------------ S4 (decided by C10 / C14 rule instances)
     from . import C09, C10, C14
     for mod, pid, picks in ((C09, "C09", ("arm[forever,new]", "arm[forever,refresh]", "TTL_FOREVER:value")),  # "with infinite TTLs": what was learnt never lapses
-                            (C10, "C10", ("offer-carries-ANNOUNCE_TTL", "phase-delays", "initial-delay", "repetitions-bounded")),
+                            (C10, "C10", ("offer-carries-ANNOUNCE_TTL", "phase-delays", "initial-delay", "repetitions-bounded", "cyclic-task-never-ends")),
                             (C14, "C14", (":subscribe-ttl", "sleeps-refresh-interval", "every-server-every-round", "round-sends-every-requested-pair",
-                                          "keeps-the-requested-set", "who-changes-the-requested-set"))):
+                                          "keeps-the-requested-set", "who-changes-the-requested-set", "refreshes-while-there-is-an-interval"))):
         sub = report.subrun(mod, pid, prog, tier, run.seed)
         n = 0
         for o in sub.obs:
